@@ -48,6 +48,10 @@ CHECKS = {
    text="The try/catch/finally part of spec/Lang.tla (frames try/catch/fin with the interrupted control saved; FinallyOnce and AllTriesLeft checked by TLC on every state of every program) decides catch selection, finally-exactly-once and finally-overrides: every depth-1 shape (8 body exits x 11 ordered catch lists over a 5-class hierarchy with an interface and unions x 4 catch-body exits x 5 finally exits x 3 contexts) is enumerated, depth-2 nestings are seeded, each program is run by TLC and by the real interpreter and the marker traces compared. spec/Process.tla (NonZeroOnFailure, FlushBeforeExit; deviation parse-error-exits-zero refuted) gives the process paths, each replayed as a real subprocess of the binary built from the working tree in both lexing modes.",
    note="Trusted: identity of the caught object is observed through its message (unique per throw site), not with ===; subprocess exit status and stderr as observed by os/exec.",
    tech="TLA+ abstract machine (Lang.tla) + Process.tla checked by TLC; enumerated try shapes and process paths replayed on the real interpreter / real subprocesses"),
+ "C03": dict(cat="model_checking", ref="§5 C03",
+   text="spec/Values.tla defines every operator as a total function on tagged values (ints, floats as exact dyadic rationals, strings, bools, null, plus an array and an object for the no-crash clause) with results value / error / inexact-float / unspecified, one Truthy operator for all eight boolean contexts, and the coherence laws; TLC checks that the oracle itself satisfies the laws (EqSym, NeCompl, StrictCompl, SpaceshipAgrees, DivAlwaysFloat) over the whole pool. Every (operator, a, b), every truthiness value and every law x pair is an initial state printed as a case; each case is one script run in a subprocess worker (a crash or hang of the interpreter is a violation of the no-crash clause).",
+   note="Trusted: === against a literal of the expected value as the exactness test. Not decided: 64-bit boundary arithmetic and non-dyadic float results (TLC: 32-bit ints, no floats) -- only their kind is checked.",
+   tech="TLA+ spec of operator semantics (Values.tla) with law invariants checked by TLC; every case replayed as a script"),
 }
 NOT_YET = "check not built yet in this round (planned: TLA+ spec + conformance binding, see DESIGN.md §5)"
 def main():
